@@ -16,6 +16,18 @@ CLAIMED = {
  "C10": ("runtime monitoring: load/save round-trip monitor around hclwrite.ParseConfig (token identity with the source, byte identity with Format, structural agreement with hclsyntax)",
          "hclwrite.ParseConfig(src).Bytes() is compared token by token with src and byte by byte with Format(src) on generated configurations, traversal-shape micro-cases in every expression position and comment-placement micro-cases; attributes, blocks, labels and the token text of every variable reference exposed by the tree are compared with hclsyntax's view of the same source. Held on the executions observed.",
          "Trusts hclsyntax as the reference view of the source.", "DESIGN.md §5 C10"),
+ "C11": ("runtime monitoring: generate-then-read-back round-trip monitor over hclwrite's source generators",
+         "Values, traversals and block labels drawn from hostile alphabets are turned into source through TokensForValue/TokensForTraversal/SetAttributeValue/SetAttributeTraversal/NewBlock/AppendNewBlock/SetLabels and read back with hclsyntax; the monitor requires error-free parse and evaluation, equality after conversion to the original type, identical traversal steps and identical labels. Held on the executions observed.",
+         "Trusts cty conversion and equality and hclsyntax's reading of literals (C01/C02 monitor those). Domain: finite values; number index keys are non-negative (the syntax has no negative literals).", "DESIGN.md §5 C11"),
+ "C12": ("runtime monitoring: random edit histories checked after every step against an executable list/map model, the VerifCheckTree invariant hook, a re-parse of the output and the API's read accessors",
+         "Seeded histories of 1-40 writer operations on empty, API-built and parsed files; after every step the tag-guarded invariant walker inspects the private node lists, the serialised file is re-parsed and compared item by item (order, names, expression tokens, block types, labels, nesting) with the model, the read accessors are compared with the model and untouched items must still contain their original tokens. Two adjudicated defect zones are reported as KNOWN-FINDING. Held on the executions observed.",
+         "Trusts hclsyntax as the reader of the output; the model is the documented set/rename/remove/append semantics.", "DESIGN.md §5 C12"),
+ "C13": ("runtime monitoring: differential monitor of json.Parse/ParseExpression against an independent RFC 8259 recogniser (cross-checked with encoding/json), an exact-decimal literal model and the native template parser",
+         "Grammar-generated JSON, near-miss mutants and JSON documents whose strings are rendered templates are parsed; acceptance is compared with the recogniser (disputes between the recogniser and encoding/json are inconclusive, never violations), literal-mode values with an exact model (512-bit decimals, duplicate names rejected at evaluation, arrays as tuples, null as dynamic null) and expression-mode values with hclsyntax.ParseTemplate's outcome for every string and property name. Held on the executions observed.",
+         "Exempt from acceptance comparison: ill-formed UTF-8, lone surrogate escapes, a leading BOM, exponents with more than 6 digits.", "DESIGN.md §5 C13"),
+ "C16": ("runtime monitoring: encode/decode round-trip monitor over reflect-generated values of a tagged struct family (native route, harness-rendered JSON twin in literal and expression mode, hclsimple), plus a panic monitor on perturbed contents",
+         "Values of six struct types covering every tag kind and Go field type are filled by reflection from hostile alphabets, encoded with gohcl, parsed and decoded back (nil and non-nil EvalContext), decoded from the harness's own JSON rendering of the same value, and decoded through hclsimple by file name; the decoded value must equal the original (nil == empty, NFC strings). Mutated contents are decoded into the same types under a panic guard. Held on the executions observed.",
+         "Pointer-typed attributes are tagged optional (a nil pointer is encoded by omission). Trusts gocty conversions.", "DESIGN.md §5 C16"),
 }
 
 NOT_YET = "monitor designed in DESIGN.md §5 but not yet built in this tree; will be claimed once its check is registered"
